@@ -35,7 +35,9 @@ from tornado.escape import native_str, utf8
 from tornado.log import app_log, gen_log
 from tornado.util import GzipDecompressor
 
-CR_OR_LF_RE = re.compile(b"\r|\n")
+# Bytes that must never appear inside a start line or header line we write
+# (NUL is not a line terminator but is just as invalid in a field).
+CR_OR_LF_RE = re.compile(b"[\r\n\x00]")
 
 
 class _QuietException(Exception):
